@@ -32,7 +32,20 @@ def summary_for(case, built):
         name = 'self'
     if name in ('wod', 'self'):
         keys = []
+    if name == 'broadcast' and case.get('kw', {}).get('recursive', {}).get('v') is False:
+        keys = []                      # derivatives are marked but not carried over
     return name, flag, keys
+
+
+def sched_for(case, built, name):
+    """raise schedule: broadcast_to raises (after the read-only marking) iff the shape is incompatible"""
+    if name == 'broadcast':
+        try:
+            ok = np.broadcast_shapes(tuple(built[0]._shape_), tuple(built[1])) == tuple(built[1])
+        except ValueError:
+            ok = False
+        return [] if ok else [0]
+    return []
 
 
 def heap_of(built):
@@ -103,7 +116,7 @@ def request(case):
     name, flag, keys = sm
     H = heap_of(built)
     return ['c07', 'call', name, flag, keys, NEXT, ['objs'] + H['objs'], ['arrs'] + H['arrs'],
-            ['args'] + H['args'], ['srcs'] + H['src_ids'], ['sched']]
+            ['args'] + H['args'], ['srcs'] + H['src_ids'], ['sched'] + sched_for(case, built, name)]
 
 
 def _adesc(a, H):
